@@ -19,6 +19,9 @@ EXTRA = {  # other checks that are expected to notice the change as well
     "C01_r2m1": ["C12"], "C01_r2m2": ["C11", "C15"], "C01_r2m3": ["C11", "C08"], "C02_r2m2": ["C10"], "C04_r2m3": ["C03"], "C05_r2m1": ["C16"],
     "C07_r2m1": ["C09"], "C08_r2m2": ["C11"], "C08_r2m3": ["C04", "C01"], "C11_r2m3": ["C15", "C08"], "C12_r2m1": ["C02"], "C15_r2m2": ["C11"],
     "C16_r2m1": ["C05"], "C16_r2m3": ["C20"], "C13_r2m2": ["C16"],
+    # third round
+    "C03_r3m2": ["C08"], "C05_r3m3": ["C01"], "C07_r3m3": ["C15"], "C08_r3m2": ["C03", "C04"], "C08_r3m3": ["C11"], "C11_r3m1": ["C08"],
+    "C11_r3m2": ["C01", "C02"], "C15_r3m2": ["C03"],
 }
 
 
